@@ -81,7 +81,9 @@ Doc(f) == World(IF f.sph THEN Spherical("begin segment") ELSE Cartesian, Feature
 (* probes <<x km, y km, depth km>>, at least 10 km away from every boundary *)
 Probes == << <<100, 100, 50>>, <<250, 250, 100>>, <<280, 255, 200>>, <<600, 250, 60>>, <<800, 250, 130>>, <<820, 100, 150>>, <<750, 450, 90>>,
              <<306, 120, 20>>, <<312, 400, 100>>, <<400, 700, 30>>, <<900, 900, 100>>, <<150, 600, 60>>, <<450, 450, 150>>, <<1500, 250, 50>>,
-             <<950, 50, 300>>, <<50, 450, 250>>, <<320, 258, 250>>, <<215, 245, 60>> >>
+             <<950, 50, 300>>, <<50, 450, 250>>, <<320, 258, 250>>, <<215, 245, 60>>,
+             \* in the plume's head (between its min depth, 10 km, and its first cross section, 50 km)
+             <<250, 250, 30>>, <<290, 255, 25>>, <<215, 245, 40>>, <<260, 280, 45>>, <<330, 250, 20>> >>
 AllProps == <<PT, PC(0), PC(1), PC(2), PC(3), PC(4), PC(5), PC(6), PTag>>
 
 (* base frames *)
